@@ -33,7 +33,7 @@ import (
 func (vfs *BasePathFS) Abs(path string) (string, error) {
 	abs, err := vfs.baseFS.Abs(vfs.ToBasePath(path))
 
-	return vfs.FromBasePath(abs), vfs.FromPathError(err)
+	return vfs.fromBasePath(abs), vfs.FromPathError(err)
 }
 
 // Base returns the last element of path.
@@ -189,8 +189,11 @@ func (vfs *BasePathFS) FromSlash(path string) string {
 // Getwd may return any one of them.
 func (vfs *BasePathFS) Getwd() (dir string, err error) {
 	dir, err = vfs.baseFS.Getwd()
+	if err != nil {
+		return "", vfs.FromPathError(err)
+	}
 
-	return vfs.FromBasePath(dir), vfs.FromPathError(err)
+	return vfs.curDir(dir), nil
 }
 
 // Glob returns the names of all files matching pattern or nil
@@ -205,7 +208,7 @@ func (vfs *BasePathFS) Glob(pattern string) (matches []string, err error) {
 	matches, err = vfs.baseFS.Glob(vfs.ToBasePath(pattern))
 
 	for i, m := range matches {
-		matches[i] = vfs.FromBasePath(m)
+		matches[i] = vfs.fromBasePath(m)
 	}
 
 	return matches, err
